@@ -46,7 +46,8 @@ def default_dims(nd):
 class MeshSpec:
     """A mesh described by exact generator-side data."""
 
-    def __init__(self, pmin, cell, n, dims, units, flip, int_corners=False):
+    def __init__(self, pmin, cell, n, dims, units, flip, int_corners=False, dyadic=False):
+        self.dyadic = dyadic  # all coordinates are small integers times a power of two
         self.pmin = np.asarray(pmin, dtype=float)
         self.cell = np.asarray(cell, dtype=float)
         self.n = np.asarray(n, dtype=int)
@@ -81,7 +82,49 @@ class MeshSpec:
 
     def mesh(self, subregions=None, bc="", by_cell=False):
         kw = {"cell": self.cell.tolist()} if by_cell else {"n": [int(k) for k in self.n]}
+        if self.dyadic and not by_cell and self.nd >= 2 and _HIST_RNG is not None \
+                and _HIST_RNG.random() < 0.6:
+            m = self._mesh_via_history(_HIST_RNG, subregions, bc)
+            if m is not None:
+                return m
         return df.Mesh(region=self.region(), bc=bc, subregions=subregions, **kw)
+
+    def _mesh_via_history(self, rng, subregions, bc):
+        """The same mesh reached through a public history: the pre-image of the mesh under
+        a quarter turn (odd k) about its centre is built, its derived quantities are read
+        once (``warm``), it is rotated *in place* and the subregions are attached through the
+        setter.  With dyadic coordinates every step is exact, so the result is
+        value-identical to the directly constructed mesh; an implementation that caches
+        derived geometry and forgets to refresh it on an in-place step is not."""
+        a, b = (int(x) for x in rng.permutation(self.nd)[:2])
+        k = int(rng.choice([1, 3, -1, 5]))
+        c = (self.pmin + self.pmax) / 2
+        e = self.edges
+        lo, hi = self.pmin.copy(), self.pmax.copy()
+        lo[a], hi[a] = c[a] - e[b] / 2, c[a] + e[b] / 2
+        lo[b], hi[b] = c[b] - e[a] / 2, c[b] + e[a] / 2
+        n = [int(x) for x in self.n]
+        n[a], n[b] = n[b], n[a]
+        units = None if self.units is None else list(self.units)
+        if units is not None:
+            units[a], units[b] = units[b], units[a]
+        names = self.dim_names
+        try:
+            pre = df.Mesh(region=df.Region(p1=lo.tolist(), p2=hi.tolist(), dims=self.dims,
+                                           units=units), n=n, bc=bc)
+            warm(pre)
+            pre.rotate90(names[a], names[b], k=k, inplace=True)
+            if subregions:
+                pre.subregions = subregions
+        except Exception:  # noqa: BLE001 - route not available: plain construction
+            return None
+        ok = (np.array_equal(pre.region.pmin, self.pmin) and np.array_equal(pre.region.pmax, self.pmax)
+              and list(pre.n) == [int(x) for x in self.n]
+              and list(pre.region.units) == (list(self.units) if self.units is not None
+                                             else ["m"] * self.nd))
+        # a mesh that does not arrive where it should is C12's / C13's subject, not the
+        # caller's: fall back to plain construction
+        return pre if ok else None
 
     def centre(self, idx):
         return self.pmin + (np.asarray(idx) + 0.5) * self.cell
@@ -146,9 +189,16 @@ def rand_meshspec(
         n = np.full(nd, min_n)
     if int_corners is None:
         int_corners = rng.random() < 0.15
+    dyadic = (not int_corners) and rng.random() < 0.12
     if int_corners:
         cell = rng.integers(1, 5, nd).astype(float)
         pmin = rng.integers(-20, 20, nd).astype(float) if offsets else np.zeros(nd)
+    elif dyadic:
+        # float corners on a dyadic lattice: all coordinate arithmetic is exact
+        lo2, hi2 = int(np.ceil(scale_decades[0] * 3.33)), int(np.floor(scale_decades[1] * 3.33))
+        scale = 2.0 ** int(rng.integers(lo2, hi2 + 1))
+        cell = scale * (rng.integers(1, 9, nd) if anisotropic else np.full(nd, rng.integers(1, 9))) / 4
+        pmin = scale * rng.integers(-40, 41, nd) / 4 if offsets else np.zeros(nd)
     else:
         scale = 10.0 ** rng.uniform(*scale_decades)
         ratio = rng.uniform(0.2, 5.0, nd) if anisotropic else np.ones(nd)
@@ -166,7 +216,7 @@ def rand_meshspec(
         dims = None
     units = rand_units(rng, nd)
     flip = rng.random(nd) < 0.3
-    return MeshSpec(pmin, cell, n, dims, units, flip, int_corners)
+    return MeshSpec(pmin, cell, n, dims, units, flip, int_corners, dyadic)
 
 
 def rand_box(rng, n, min_size=1):
@@ -273,6 +323,78 @@ def rand_field(rng, mesh, nvdim=None, dtype=None, vdims="random", valid="random"
         kw["vdim_mapping"] = mapping
     f = df.Field(mesh, nvdim=nvdim, value=arr, valid=val.copy(), **kw)
     return f, arr, val
+
+
+def warm(obj):
+    """Read the derived quantities of a region / mesh / field once (results discarded), so
+    that anything an implementation may cache is filled with the *current* state before a
+    workload changes that state in place."""
+    import contextlib
+    reads = []
+    if hasattr(obj, "array"):
+        reads += [lambda: obj.norm, lambda: obj.orientation, lambda: obj.valid.sum(),
+                  lambda: obj.mean(), lambda: obj.vdims, lambda: obj._valid_as_field]
+        obj = obj.mesh
+    if hasattr(obj, "n"):
+        reads += [lambda: obj.cell, lambda: len(obj), lambda: obj.dV, lambda: obj.cells,
+                  lambda: obj.vertices, lambda: obj.index2point((0,) * obj.region.ndim),
+                  lambda: obj.subregions]
+        obj = obj.region
+    reads += [lambda: obj.edges, lambda: obj.center, lambda: obj.volume, lambda: obj.multiplier]
+    for r in reads:
+        with contextlib.suppress(Exception):
+            r()
+
+
+_HIST_RNG = None
+
+
+def set_history_rng(rng):
+    """Called by the worker before every case: a generator of its own
+    (default_rng([seed, case, 7919])) so that histories never perturb the case's stream."""
+    global _HIST_RNG
+    _HIST_RNG = rng
+
+
+def via_history(rng, f, p=0.35):
+    """A field in exactly the state of ``f`` that got there through a public *history*
+    (probability p): built with other values and full validity, derived quantities read
+    once (``warm``), then values and validity written in place through the array objects the
+    getters return, through the setters, or through ``update_field_values``.  A correct
+    implementation cannot tell the difference; stale caches and bypassed setters can."""
+    rng = rng if rng is not None else _HIST_RNG
+    if rng is None or rng.random() >= p:
+        return f
+    a = np.array(f.array)
+    if a.dtype.kind == "b":
+        other = ~a
+    elif a.dtype.kind in "iu":
+        other = a + 1
+    else:
+        other = a * 0.5 + (1 + np.abs(a).max())
+    kw = {"vdims": f.vdims, "unit": f.unit, "dtype": f.dtype,
+          "vdim_mapping": dict(f.vdim_mapping) if f.vdim_mapping else None}
+    if f.nvdim == 1 and not f.vdim_mapping:
+        kw.pop("vdim_mapping")
+    try:
+        g = df.Field(f.mesh, nvdim=f.nvdim, value=other, valid=True, **kw)
+    except Exception:  # noqa: BLE001 - keep the plain field if this route is not available
+        return f
+    if (g.array.dtype != f.array.dtype or g.vdims != f.vdims
+            or dict(g.vdim_mapping) != dict(f.vdim_mapping)):
+        return f
+    warm(g)
+    mode = pick(rng, ["inplace", "inplace", "setter", "update"])
+    if mode == "inplace":
+        g.array[...] = f.array
+        g.valid[...] = f.valid
+    elif mode == "setter":
+        g.array = np.array(f.array)
+        g.valid = np.array(f.valid)
+    else:
+        g.update_field_values(np.array(f.array))
+        g.valid = np.array(f.valid)
+    return g
 
 
 def rand_bc(rng, dim_names, p_none=0.5):
